@@ -194,7 +194,8 @@ def _sized(cap, tif, j, k1, s1, k2, s2, jump=0):
 
 
 def _sized_c(cap, tif, j, k1, s1, k2, s2, jump=0):
-    lrs = [_lr(0, 5, 1), _lr(1, 4, 2)]
+    # record 0 spans 3..5 physical records, so that one sized request can cross several boundaries and still end inside the record
+    lrs = [_lr(0, 9, 1), _lr(1, 4, 2)]
     data, pos = _write(cap, True, False, False, tif, lrs)
     r = File.FileRead(SymFile(data), 'r', False)
     r.seekLr(pos[j])
